@@ -93,8 +93,11 @@ func c01Gen(t *rapid.T) vPipeCase {
 			}
 		case 2:
 			np, ns := vGenLengths(t)
-			if rapid.Bool().Draw(t, "samelengths") {
-				np, ns = npre, nsamp
+			switch rapid.IntRange(0, 3).Draw(t, "lengthschange") {
+			case 0:
+				np, ns = npre, nsamp // unchanged
+			case 1: // only the pre-trigger length changes (either direction, possibly by a lot)
+				np, ns = rapid.IntRange(3, nsamp-1).Draw(t, "npreonly"), nsamp
 			}
 			ok := true
 			for _, tc := range cur {
